@@ -1543,6 +1543,37 @@ func builtinSortStable(env *LEnv, args *LVal) *LVal {
 	return list
 }
 
+// callValues applies fun to arguments that are already values.  They are
+// handed over as they are: building the expression (fun arg...) and evaluating
+// it would evaluate every argument a second time, which changes any argument
+// that is not self-evaluating (an unquoted symbol or call form taken out of a
+// quoted list).  Special operators and macros keep the expression route.
+func callValues(env *LEnv, fun *LVal, args ...*LVal) *LVal {
+	if fun.FunType == LFunNone {
+		return env.FunCall(fun, SExpr(args))
+	}
+	cells := make([]*LVal, 0, len(args)+1)
+	cells = append(cells, fun)
+	cells = append(cells, args...)
+	return env.Eval(SExpr(cells))
+}
+
+// callWithKeys returns (fun a b), or (fun (keyfun a) (keyfun b)) when keyfun
+// is not nil, for values a and b.
+func callWithKeys(env *LEnv, fun, keyfun, a, b *LVal) *LVal {
+	if keyfun != nil {
+		a = callValues(env, keyfun, a)
+		if a.Type == LError {
+			return a
+		}
+		b = callValues(env, keyfun, b)
+		if b.Type == LError {
+			return b
+		}
+	}
+	return callValues(env, fun, a, b)
+}
+
 type lvalByFun struct {
 	env    *LEnv
 	fun    *LVal
@@ -1569,17 +1600,7 @@ func (s *lvalByFun) Less(i, j int) bool {
 	a, b := s.cells[i], s.cells[j]
 	// Functions are always copied when being invoked. But the arguments
 	// are not copied in general.
-	var expr *LVal
-	if s.keyfun == nil {
-		expr = SExpr([]*LVal{s.fun, a.Copy(), b.Copy()})
-	} else {
-		expr = SExpr([]*LVal{
-			s.fun,
-			SExpr([]*LVal{s.keyfun, a.Copy()}),
-			SExpr([]*LVal{s.keyfun, b.Copy()}),
-		})
-	}
-	ok := s.env.Eval(expr)
+	ok := callWithKeys(s.env, s.fun, s.keyfun, a.Copy(), b.Copy())
 	if ok.Type == LError {
 		s.err = ok
 		return false
@@ -1648,23 +1669,7 @@ func builtinInsertSorted(env *LEnv, args *LVal) *LVal {
 	sortErr := Nil()
 	inCells := seqCells(list)
 	i := sort.Search(len(inCells), func(i int) bool {
-		var expr *LVal
-		if keyFun == nil {
-			expr = SExpr([]*LVal{p, item.Copy(), inCells[i].Copy()})
-		} else {
-			expr = SExpr([]*LVal{
-				p,
-				SExpr([]*LVal{
-					keyFun,
-					item.Copy(),
-				}),
-				SExpr([]*LVal{
-					keyFun,
-					inCells[i].Copy(),
-				}),
-			})
-		}
-		ok := env.Eval(expr)
+		ok := callWithKeys(env, p, keyFun, item.Copy(), inCells[i].Copy())
 		if ok.Type == LError {
 			sortErr = ok
 			return false
@@ -2473,8 +2478,7 @@ func builtinAllP(env *LEnv, args *LVal) *LVal {
 		return env.Errorf("second argument is not a proper sequence: %v", list.Type)
 	}
 	for _, v := range seqCells(list) {
-		expr := SExpr([]*LVal{pred, v})
-		ok := env.Eval(expr)
+		ok := callValues(env, pred, v)
 		if ok.Type == LError {
 			return ok
 		}
@@ -2498,8 +2502,7 @@ func builtinAnyP(env *LEnv, args *LVal) *LVal {
 		return env.Errorf("second argument is not a list: %v", list.Type)
 	}
 	for _, v := range seqCells(list) {
-		expr := SExpr([]*LVal{pred, v})
-		ok := env.Eval(expr)
+		ok := callValues(env, pred, v)
 		if ok.Type == LError {
 			return ok
 		}
